@@ -306,15 +306,9 @@ func c37(p *an.Prog, r *an.R, tier string) {
 			idxObjs = append(idxObjs, nil)
 		}
 		guarded := g.GuardedBy(l, func(cond ast.Expr, truth bool) bool {
-			be, ok := ast.Unparen(cond).(*ast.BinaryExpr)
-			if !ok || !an.UsesObj(info, be.X, overlapVar) {
-				return false
-			}
-			tv := info.Types[be.Y]
-			if tv.Value == nil || tv.Value.String() != "-1" {
-				return false
-			}
-			return (be.Op.String() == "==" && !truth) || (be.Op.String() == "!=" && truth)
+			// any comparison that rules out overlaps() == -1 on this edge
+			f, isCmp := an.IntCompare(info, cond, truth, func(e ast.Expr) bool { return an.UsesObj(info, e, overlapVar) })
+			return isCmp && f.Excludes(-1)
 		}, nil)
 		r.Check(guarded, "C37.R2", fmt.Sprintf("index.(*tagsToSections).Convert/insert#%d/only-without-overlap", ins), as.Pos(), "inserted only when overlaps() did not report an overlap", "a symbol range is inserted although overlaps() reported -1: the shard builder rejects overlapping sections and the build fails")
 	}
